@@ -96,6 +96,15 @@ func (e *Eval) Prepare(flags ...[]byte) error {
 	defer e.mutex.Unlock()
 
 	//
+	// Start from scratch: if we have been prepared before we must not
+	// add the program to the bytecode, constants and functions which
+	// the earlier call left behind.
+	//
+	e.constants = nil
+	e.instructions = nil
+	e.functions = make(map[string]environment.UserFunction)
+
+	//
 	// Default to optimizing the bytecode.
 	//
 	optimize := true
